@@ -736,20 +736,24 @@ theorem queued_append (q : List (Bytes × Bool)) (m : Bytes) (ok : Bool) :
     cases b <;> simp [queued, ih]
 
 theorem owed_enqueue (c : Conn) (m : Bytes) (ok : Bool) :
-    owed (c.enqueue m ok).w = owed c.w ++ (if ok then wframe m else []) := by
-  simp [owed, Conn.enqueue, queued_append]
-
-/-- the messages a consumer program hands to `send` for the peer, in order -/
-def okSends : List Act → List Bytes
-  | [] => []
-  | .send m true :: as => m :: okSends as
-  | _ :: as => okSends as
+    owed (c.enqueue m ok).w = owed c.w ++ (if ok && c.accepts ok then wframe m else []) := by
+  simp only [owed, enqueue_send, enqueue_queue]
+  cases hacc : c.accepts ok
+  · simp
+  · simp [queued_append]
 
 /-- any history of sends and polls (polling on after an error included) -/
 def execAll (c : Conn) : List Act → Conn
   | [] => c
   | .send m ok :: as => execAll (c.enqueue m ok) as
   | .poll :: as => execAll (pollNext c).1 as
+
+/-- the messages for the peer that `send` accepted along such a history, in order (a message is
+refused — the caller gets an error — while the bounded queue is full) -/
+def accepted (c : Conn) : List Act → List Bytes
+  | [] => []
+  | .send m ok :: as => (if ok && c.accepts ok then [m] else []) ++ accepted (c.enqueue m ok) as
+  | .poll :: as => accepted (pollNext c).1 as
 
 theorem wframes_append (a b : List Bytes) : wframes (a ++ b) = wframes a ++ wframes b := by
   induction a with
@@ -758,49 +762,53 @@ theorem wframes_append (a b : List Bytes) : wframes (a ++ b) = wframes a ++ wfra
 
 /-- **Bytes written, exact form.**  After any interleaving of `send`s and `poll_next`s, over any
 acceptance script: bytes accepted by the socket ++ bytes still owed = what was there before ++
-`frame m₁ ++ … ++ frame mₖ` of the messages sent meanwhile, in order. -/
+`frame m₁ ++ … ++ frame mₖ` of the messages accepted by `send` meanwhile, in order. -/
 theorem write_bytes (prog : List Act) : ∀ (c : Conn), WrWF c.w.send →
-    (execAll c prog).w.written ++ owed (execAll c prog).w = c.w.written ++ owed c.w ++ wframes (okSends prog) ∧
+    (execAll c prog).w.written ++ owed (execAll c prog).w =
+        c.w.written ++ owed c.w ++ wframes (accepted c prog) ∧
       WrWF (execAll c prog).w.send := by
   induction prog with
-  | nil => intro c hwf; simp [execAll, okSends, wframes, hwf]
+  | nil => intro c hwf; simp [execAll, accepted, wframes, hwf]
   | cons a as ih =>
     intro c hwf
     cases a with
     | send m ok =>
-      have := ih (c.enqueue m ok) (by simpa [Conn.enqueue] using hwf)
+      have := ih (c.enqueue m ok) (by simpa using hwf)
       refine ⟨?_, this.2⟩
-      simp only [execAll]
-      rw [this.1, owed_enqueue]
-      cases ok <;> simp [okSends, wframes, Conn.enqueue]
+      simp only [execAll, accepted]
+      rw [this.1, owed_enqueue, enqueue_written, wframes_append]
+      cases h : (ok && c.accepts ok) <;> simp [wframes]
     | poll =>
       have hp := pollNext_conserves c hwf
       have := ih (pollNext c).1 hp.2
       refine ⟨?_, this.2⟩
-      simp only [execAll, okSends]
+      simp only [execAll, accepted]
       rw [this.1, hp.1]
 
 /-- the run of the harness' consumer (sends and polls, stop at the first terminal item, then drain):
-the bytes on the wire are always a prefix of the concatenated frames -/
+the bytes on the wire are always a prefix of the concatenated frames of the accepted messages -/
 theorem write_bytes_prefix (prog : List Act) : ∀ (c : Conn), WrWF c.w.send →
-    (runProg c prog).2.w.written <+: c.w.written ++ owed c.w ++ wframes (okSends prog) := by
+    (runProg c prog).2.w.written <+: c.w.written ++ owed c.w ++ wframes (accepted c prog) := by
   induction prog with
   | nil =>
     intro c hwf
     have := (drain_conserves c hwf).1
-    simp only [runProg, okSends, wframes, List.append_nil]
+    simp only [runProg, accepted, wframes, List.append_nil]
     rw [← this]; exact List.prefix_append _ _
   | cons a as ih =>
     intro c hwf
     cases a with
     | send m ok =>
-      have := ih (c.enqueue m ok) (by simpa [Conn.enqueue] using hwf)
-      simp only [runProg]
-      rw [owed_enqueue] at this
-      cases ok <;> simpa [okSends, wframes, Conn.enqueue] using this
+      have := ih (c.enqueue m ok) (by simpa using hwf)
+      simp only [runProg, accepted]
+      rw [owed_enqueue, enqueue_written] at this
+      rw [wframes_append]
+      cases h : (ok && c.accepts ok)
+      · simp only [h] at this ⊢; simpa [wframes] using this
+      · simp only [h] at this ⊢; simpa [wframes] using this
     | poll =>
       have hp := pollNext_conserves c hwf
-      simp only [runProg, okSends]
+      simp only [runProg, accepted]
       split
       · simp only
         rw [← hp.1, List.append_assoc]; exact List.prefix_append _ _
@@ -826,19 +834,61 @@ theorem drain_final_queue (c : Conn) (hq : AllOk c.w.queue) (hfin : (drain c).2.
     · exact (writeLoop_done _ _ hd).1
     · exact absurd hfin (writeLoop_not_done _ _ hq hd)
 
-/-- **Bytes written, completed run.**  Queue `m₁ … mₖ` on a fresh connection and drain it over any
-read script and any acceptance script: the socket has accepted a prefix of
-`frame m₁ ++ … ++ frame mₖ`, and exactly all of it whenever the run ends with no message half-sent
-(in particular whenever it ends on the receive side: clean end, read error, or waiting for input). -/
-theorem write_bytes_drained (rs : List REv) (ws : List WEv) (vec : Bool) (ms : List Bytes) :
+/-- the first `bufferSize + 1 = 33` messages queued on an idle handle are all accepted -/
+theorem accepted_sends (ms : List Bytes) : ∀ (c : Conn), c.w.parked = false →
+    c.w.queue.length + ms.length ≤ bufferSize + 1 →
+    accepted c (ms.map (Act.send · true)) = ms := by
+  induction ms with
+  | nil => intro c _ _; rfl
+  | cons m t ih =>
+    intro c hp hlen
+    simp only [List.map_cons, accepted, Conn.accepts, hp]
+    simp only [List.length_cons] at hlen
+    cases t with
+    | nil => simp [accepted]
+    | cons m' t' =>
+      have hlt : ¬ (c.w.queue.length + 1 > bufferSize) := by
+        simp only [List.length_cons, bufferSize] at hlen ⊢; omega
+      have hpk : (c.enqueue m true).w.parked = false := by
+        unfold Conn.enqueue
+        simp only [hp, Bool.and_false, Bool.false_eq_true, if_false]
+        rw [if_neg hlt]
+      have := ih (c.enqueue m true) hpk (by
+        rw [enqueue_queue]; simp only [Conn.accepts, hp]; simp at hlen ⊢; omega)
+      simp only [Bool.and_false, Bool.not_false, Bool.and_self, if_true, List.singleton_append,
+        List.cons.injEq, true_and]
+      exact this
+
+theorem execAll_sends_allOk (ms : List Bytes) : ∀ (c : Conn), AllOk c.w.queue →
+    AllOk (execAll c (ms.map (Act.send · true))).w.queue := by
+  induction ms with
+  | nil => intro c h; simpa [execAll] using h
+  | cons m t ih =>
+    intro c h
+    simp only [List.map_cons, execAll]
+    apply ih
+    rw [enqueue_queue]
+    split
+    · intro x hx
+      simp at hx
+      rcases hx with hx | rfl
+      · exact h x hx
+      · rfl
+    · exact h
+
+/-- **Bytes written, completed run.**  Queue `m₁ … mₖ` (k ≤ 33, the capacity of the outbound queue)
+on a fresh connection and drain it over any read script and any acceptance script: the socket has
+accepted a prefix of `frame m₁ ++ … ++ frame mₖ`, and exactly all of it whenever the run ends with no
+message half-sent (in particular whenever it ends on the receive side: clean end, read error, or
+waiting for input). -/
+theorem write_bytes_drained (rs : List REv) (ws : List WEv) (vec : Bool) (ms : List Bytes)
+    (hcap : ms.length ≤ bufferSize + 1) :
     let c := execAll { vec := vec, rs := rs, w := { ws := ws } } (ms.map (Act.send · true))
     (drain c).2.w.written <+: wframes ms ∧
       ((drain c).2.w.send = none → (drain c).2.w.written = wframes ms) := by
   intro c
-  have hok : okSends (ms.map (Act.send · true)) = ms := by
-    induction ms with
-    | nil => rfl
-    | cons m t ih => simp [okSends, ih]
+  have hok : accepted { vec := vec, rs := rs, w := { ws := ws } } (ms.map (Act.send · true)) = ms :=
+    accepted_sends ms _ rfl (by simpa using hcap)
   have hex := write_bytes (ms.map (Act.send · true)) { vec := vec, rs := rs, w := { ws := ws } } (by simp [WrWF])
   rw [hok] at hex
   have h0 : ({ vec := vec, rs := rs, w := { ws := ws } } : Conn).w.written ++
@@ -846,22 +896,7 @@ theorem write_bytes_drained (rs : List REv) (ws : List WEv) (vec : Bool) (ms : L
   rw [h0, List.nil_append] at hex
   have hex1 : c.w.written ++ owed c.w = wframes ms := hex.1
   have hdr := drain_conserves c hex.2
-  have hall : AllOk c.w.queue := by
-    show AllOk (execAll _ _).w.queue
-    suffices h : ∀ (l : List Bytes) (c : Conn), AllOk c.w.queue → AllOk (execAll c (l.map (Act.send · true))).w.queue from
-      h ms _ (by simp [AllOk])
-    intro l
-    induction l with
-    | nil => intro c h; simpa [execAll] using h
-    | cons m t ih =>
-      intro c h
-      simp only [List.map_cons, execAll]
-      apply ih
-      intro x hx
-      simp [Conn.enqueue] at hx
-      rcases hx with hx | rfl
-      · exact h x hx
-      · rfl
+  have hall : AllOk c.w.queue := execAll_sends_allOk ms _ (by simp [AllOk])
   constructor
   · rw [← hex1, ← hdr.1]; exact List.prefix_append _ _
   · intro hfin
@@ -1033,7 +1068,9 @@ theorem runProg_msgs (prog : List Act) : ∀ (c : Conn), c.rd.WF →
   | cons a as ih =>
     intro c hwf
     cases a with
-    | send m ok => exact ih (c.enqueue m ok) hwf
+    | send m ok =>
+      have := ih (c.enqueue m ok) (by simpa using hwf)
+      simpa [runProg] using this
     | poll =>
       have hs := pollNext_step c hwf
       simp only [runProg]
@@ -1095,3 +1132,8 @@ theorem write_completes_unless_blocked_or_failed (c : Conn) :
       · exact absurd rfl hnp
       · right; left; rfl
       · right; right; rfl
+
+/-- the bounded queue at work: of 40 messages queued without a poll in between, 33 are accepted
+(`bufferSize` + the sender's own slot), the other 7 are refused and counted -/
+example : (accepted {} ((List.range 40).map fun i => Act.send [i] true)).length = 33
+    ∧ (execAll {} ((List.range 40).map fun i => Act.send [i] true)).w.rejected = 7 := by decide
